@@ -368,6 +368,9 @@ func (f *Frame) applyContract(c *Contract, sig *types.Signature, invoke bool, ar
 	} else if len(results) == 1 {
 		res = results[0]
 	}
+	for _, r := range results {
+		f.constrainFreshRef(r, in)
+	}
 	envM := f.bindContractEnv(c, sig, invoke, args, results)
 	f.applyModifies(c, envM, in)
 	env2 := f.bindContractEnv(c, sig, invoke, args, results)
@@ -375,7 +378,7 @@ func (f *Frame) applyContract(c *Contract, sig *types.Signature, invoke bool, ar
 	env2.cur = f.cur.St
 	for _, cl := range c.Ensures {
 		// postconditions tagged with another property are not needed for this one (dropping assumptions is sound)
-		if tr.prop != "" && cl.Prop != "" && cl.Prop != tr.prop {
+		if tr.prop != "" && cl.Prop != "" && cl.Prop != tr.prop && !containsStr(cl.Also, tr.prop) {
 			continue
 		}
 		t, err := env2.boolExpr(cl.E)
@@ -1759,4 +1762,47 @@ func specialisedKey(db *SpecDB, key string, cc *ssa.CallCommon) string {
 		}
 	}
 	return key
+}
+
+func containsStr(xs []string, x string) bool {
+	for _, y := range xs {
+		if y == x {
+			return true
+		}
+	}
+	return false
+}
+
+// constrainFreshRef: a reference obtained from a callee is either a pre-existing object (non-negative) or one of this
+// activation's allocations that may already have escaped; it can never be an allocation made later or kept private.
+func (f *Frame) constrainFreshRef(v Val, at ssa.Instruction) {
+	switch v.K {
+	case VStruct, VTuple:
+		for _, x := range v.Fs {
+			f.constrainFreshRef(x, at)
+		}
+		return
+	case VRef, VMap, VFunc:
+	case VSlice:
+	default:
+		return
+	}
+	alts := []string{"(>= " + v.T + " 0)"}
+	for fr := f; fr != nil; fr = fr.parentFrame() {
+		for _, ai := range fr.allocL {
+			if ai.ref == "" {
+				continue
+			}
+			esc := true
+			if fr == f && at != nil {
+				esc = fr.escapedBefore(ai, at)
+			} else if fr != f && fr.curInstr() != nil {
+				esc = fr.escapedBefore(ai, fr.curInstr())
+			}
+			if esc {
+				alts = append(alts, sEq(v.T, ai.ref))
+			}
+		}
+	}
+	f.assume(sOr(alts...))
 }
